@@ -248,6 +248,14 @@ def matrix(ctx: Ctx):
     ok_unpack = len(unpack) == 1 and flow.dump(unpack[0].targets[0]) == "(rows, cols)"
     ctx.check(ok_unpack, "D2", "DU.matrix", "the solver's result is unpacked as (row indices, column indices)", fn, unpack[0] if unpack else None,
               why_bad=f"unpacked as {flow.dump(unpack[0].targets[0]) if unpack else '?'}: vehicles and requests are read with each other's indices", construct="find_assignment:unpack")
+    # ... and nothing else ever binds them: index arrays from any other source (a shortcut for small tables, a greedy pass) carry no
+    # guarantee of distinct rows and distinct columns, which is what makes the pairs an assignment at all
+    other = [s_ for s_ in walk_stmts(fn.node) if isinstance(s_, (ast.Assign, ast.AugAssign, ast.AnnAssign)) and s_ not in unpack
+             and any(isinstance(x, ast.Name) and x.id in ("rows", "cols") and isinstance(x.ctx, ast.Store) for t_ in (s_.targets if isinstance(s_, ast.Assign) else [s_.target]) for x in ast.walk(t_))]
+    ctx.check(not other, "D2", "DU.matrix", "the index arrays read back as pairs are bound by the solver's result and by nothing else", fn, other[0] if other else None,
+              why_bad=f"`{flow.dump(other[0])[:120] if other else ''}` also binds them: pairs read from index arrays the solver did not produce need be neither distinct (one request given to two "
+                      f"vehicles in the same step) nor of minimum total cost",
+              construct="find_assignment:indices-not-from-solver")
     ps = [p for p in flow.paths(inner.node) if p.kind == "return"]
     want = f"{sol}.add(({A}[rows[{k}]].id, {T}[cols[{k}]].id), table[rows[{k}]][cols[{k}]])"
     ok = flow.values_match(ps, want)
